@@ -47,9 +47,15 @@ pub enum ViewSpec {
     Tr(Vec<usize>),
     Rg(Vec<(usize, usize)>),
     Rev(Vec<bool>),
+    /// `rename_view` (tensors): the same elements under other dimension names
+    Rn(Vec<&'static str>),
 }
 
 impl ViewSpec {
+    /// built from an owned copy: not available for the assigning operations
+    pub fn is_shared_only(&self) -> bool {
+        matches!(self, ViewSpec::Rn(_))
+    }
     /// the owned container itself or a plain borrow of it
     pub fn is_basic(&self) -> bool {
         matches!(self, ViewSpec::Own | ViewSpec::Ref)
@@ -71,6 +77,7 @@ pub fn parse_view(s: &str) -> Option<ViewSpec> {
             })
             .collect::<Option<Vec<(usize, usize)>>>()
             .map(ViewSpec::Rg),
+        "rn" => Some(ViewSpec::Rn(parts[1..].iter().map(|n| intern(n)).collect())),
         "rev" => parts[1..]
             .iter()
             .map(|f| match *f {
@@ -100,6 +107,7 @@ pub fn show_view(v: &ViewSpec) -> String {
         ViewSpec::Tr(p) => format!("/tr.{}", join(p.iter().map(|x| x.to_string()).collect())),
         ViewSpec::Rg(r) => format!("/rg.{}", join(r.iter().map(|(a, b)| format!("{}+{}", a, b)).collect())),
         ViewSpec::Rev(f) => format!("/rev.{}", join(f.iter().map(|b| if *b { "1".to_string() } else { "0".to_string() }).collect())),
+        ViewSpec::Rn(n) => format!("/rn.{}", n.join(".")),
     }
 }
 
@@ -156,6 +164,12 @@ pub fn view_of(shape: &[(&'static str, usize)], spec: &ViewSpec, is_matrix: bool
             let vshape: Sh = (0..d).map(|k| (shape[k].0, lens[k])).collect();
             Some((vshape, all_indexes(&lens).iter().map(|i| base + dot(i, &st)).collect()))
         }
+        ViewSpec::Rn(n) => {
+            if is_matrix || n.len() != d {
+                return None;
+            }
+            Some(((0..d).map(|k| (n[k], shape[k].1)).collect(), (0..shape.iter().map(|x| x.1).product()).collect()))
+        }
         ViewSpec::Rev(f) => {
             if f.len() != d {
                 return None;
@@ -189,7 +203,14 @@ macro_rules! tview {
             }
             ViewSpec::Acc(p) => {
                 let dims: [Dimension; $D] = std::array::from_fn(|k| shape[p[k]].0);
-                let $v = RecordTensor::from_existing(h, TensorView::from(TensorAccess::from(base, dims)));
+                // `index()` for the source order, `index_by` otherwise
+                let access = if (0..$D).all(|k| p[k] == k) { base.index() } else { base.index_by(dims) };
+                let $v = RecordTensor::from_existing(h, TensorView::from(access));
+                $body
+            }
+            ViewSpec::Rn(n) => {
+                let dims: [Dimension; $D] = std::array::from_fn(|k| n[k]);
+                let $v = base.clone().rename_view(dims);
                 $body
             }
             ViewSpec::Tr(p) => {
@@ -256,6 +277,7 @@ macro_rules! tview_mut {
                 let r = $body;
                 r.map(|_| ())
             }
+            ViewSpec::Rn(_) => unreachable!("harness: rename_view is not a mutable view"),
         }
     }};
 }
@@ -357,7 +379,14 @@ macro_rules! tview_fancy {
         match $spec {
             ViewSpec::Acc(p) => {
                 let dims: [Dimension; $D] = std::array::from_fn(|k| shape[p[k]].0);
-                let $v = RecordTensor::from_existing(h, TensorView::from(TensorAccess::from(base, dims)));
+                // `index()` for the source order, `index_by` otherwise
+                let access = if (0..$D).all(|k| p[k] == k) { base.index() } else { base.index_by(dims) };
+                let $v = RecordTensor::from_existing(h, TensorView::from(access));
+                $body
+            }
+            ViewSpec::Rn(n) => {
+                let dims: [Dimension; $D] = std::array::from_fn(|k| n[k]);
+                let $v = base.clone().rename_view(dims);
                 $body
             }
             ViewSpec::Tr(p) => {
@@ -536,7 +565,7 @@ macro_rules! mview_fancy_mut {
 /// `full`: every ownership form of the operator impls (used with the owned and borrowed source
 /// kinds); `lite`: the all-references form only (used with the other source kinds, to keep the
 /// number of instantiations of the generic library code bearable).
-pub trait Elt: Numeric + Primitive + El + PartialOrd + FromUsize + 'static {
+pub trait Elt: Numeric + Primitive + El + PartialOrd + FromUsize + std::fmt::Debug + 'static {
     fn t_real_full<S: TensorRef<(Self, Index), D>, const D: usize>(
         v: RecordTensor<'static, Self, S, D>,
         op: &str,
@@ -966,6 +995,8 @@ where
 // ---------------------------------------------------------------------------------------------
 
 pub enum AnyC<T: Primitive + 'static> {
+    /// 0-dimensional: what `From<Record>` makes
+    T0(RT<T, 0>),
     T1(RT<T, 1>),
     T2(RT<T, 2>),
     T3(RT<T, 3>),
@@ -981,6 +1012,7 @@ where
     }
     fn shape(&self) -> Sh {
         match self {
+            AnyC::T0(c) => c.shape().to_vec(),
             AnyC::T1(c) => c.shape().to_vec(),
             AnyC::T2(c) => c.shape().to_vec(),
             AnyC::T3(c) => c.shape().to_vec(),
@@ -989,15 +1021,36 @@ where
     }
     fn history(&self) -> Option<&'static WengertList<T>> {
         match self {
+            AnyC::T0(c) => c.history(),
             AnyC::T1(c) => c.history(),
             AnyC::T2(c) => c.history(),
             AnyC::T3(c) => c.history(),
             AnyC::M(c) => c.history(),
         }
     }
+    /// `elements()` of the container
+    fn elements(&self) -> usize {
+        match self {
+            AnyC::T0(c) => c.elements(),
+            AnyC::T1(c) => c.elements(),
+            AnyC::T2(c) => c.elements(),
+            AnyC::T3(c) => c.elements(),
+            AnyC::M(c) => c.elements(),
+        }
+    }
+    fn copy(&self) -> AnyC<T> {
+        match self {
+            AnyC::T0(c) => AnyC::T0(c.clone()),
+            AnyC::T1(c) => AnyC::T1(c.clone()),
+            AnyC::T2(c) => AnyC::T2(c.clone()),
+            AnyC::T3(c) => AnyC::T3(c.clone()),
+            AnyC::M(c) => AnyC::M(c.clone()),
+        }
+    }
     /// `(number, index)` in row-major order
     fn elems(&self) -> Vec<(T, Index)> {
         match self {
+            AnyC::T0(c) => c.view().iter().collect(),
             AnyC::T1(c) => c.view().iter().collect(),
             AnyC::T2(c) => c.view().iter().collect(),
             AnyC::T3(c) => c.view().iter().collect(),
@@ -1067,12 +1120,22 @@ where
         let vals: Vec<T> = elems.iter().map(|e| e.0.clone()).collect();
         let idx: Vec<usize> = elems.iter().map(|e| e.1).collect();
         let is_const = slot.c.history().is_none();
+        let shown = match &slot.c {
+            AnyC::T0(c) => format!("{}", c),
+            AnyC::T1(c) => format!("{}", c),
+            AnyC::T2(c) => format!("{}", c),
+            AnyC::T3(c) => format!("{}", c),
+            AnyC::M(c) => format!("{}", c),
+        };
+        if !display_shows(&shown, &vals) {
+            return format!("display-does-not-show-the-numbers {}", shown.replace('\n', "|"));
+        }
         let scalar = match &slot.shadow {
             None => "skip".to_string(),
             Some(recs) => {
                 let svals: Vec<T> = recs.iter().map(|r| r.number.clone()).collect();
                 let sconst = recs.iter().all(|r| r.history().is_none());
-                if same(&svals, &vals) && (slot.mixed || sconst == is_const) {
+                if same(&svals, &vals) && (slot.mixed || sconst == is_const) && slot.c.elements() == vals.len() {
                     "ok".to_string()
                 } else {
                     format!("DIFF(v={},const={})", show_list(&svals), if sconst { 1 } else { 0 })
@@ -1140,6 +1203,7 @@ where
                     })
                 })
             }
+            ("T", 0) => mk!(0, T0),
             ("T", 1) => mk!(1, T1),
             ("T", 2) => mk!(2, T2),
             ("T", 3) => mk!(3, T3),
@@ -1176,6 +1240,7 @@ where
         let fr = fns.as_ref();
         let basic = spec.is_basic();
         let out: Result<AnyC<T>, PanicKind> = match &slot.c {
+            AnyC::T0(c) => tview_basic!(0, c, &spec, v => catch(move || AnyC::T0(t_un_full::<T, _, 0>(v, op, via, kr, fr)))),
             AnyC::T1(c) => tview_basic!(1, c, &spec, v => catch(move || AnyC::T1(t_un_full::<T, _, 1>(v, op, via, kr, fr)))),
             AnyC::T2(c) if basic => tview_basic!(2, c, &spec, v => catch(move || AnyC::T2(t_un_full::<T, _, 2>(v, op, via, kr, fr)))),
             AnyC::T2(c) => tview_fancy!(2, c, &spec, v => catch(move || AnyC::T2(t_un_lite::<T, _, 2>(v, op, kr, fr)))),
@@ -1224,6 +1289,7 @@ where
             }
         } else {
             match (&sa.c, &sb.c) {
+                (AnyC::T0(x), AnyC::T0(y)) => tview_basic!(0, x, spa, va => tview_basic!(0, y, spb, vb => catch(move || AnyC::T0(t_bin_full::<T, _, _, 0>(va, vb, op, via, fr))))),
                 (AnyC::T1(x), AnyC::T1(y)) => tview_basic!(1, x, spa, va => tview_basic!(1, y, spb, vb => catch(move || AnyC::T1(t_bin_full::<T, _, _, 1>(va, vb, op, via, fr))))),
                 (AnyC::T2(x), AnyC::T2(y)) if ba && bb => tview_basic!(2, x, spa, va => tview_basic!(2, y, spb, vb => catch(move || AnyC::T2(t_bin_full::<T, _, _, 2>(va, vb, op, via, fr))))),
                 (AnyC::T2(x), AnyC::T2(y)) if bb => tview_fancy!(2, x, spa, va => tview_basic!(2, y, spb, vb => catch(move || AnyC::T2(t_bin_lite::<T, _, _, 2>(va, vb, op, fr))))),
@@ -1284,6 +1350,9 @@ where
             Ok(x) => x,
             Err(e) => return e,
         };
+        if spec.is_shared_only() {
+            return "bad-view".into();
+        }
         let fns = unary_fn::<T>(opt_arg("fn", toks).unwrap());
         let (f, df) = (&fns.0, &fns.1);
         macro_rules! body {
@@ -1301,6 +1370,7 @@ where
         }
         let slot = self.slots.get_mut(&an).unwrap();
         let r: Result<(), PanicKind> = match &mut slot.c {
+            AnyC::T0(_) => return "bad-kind".into(),
             AnyC::T1(c) => tview_basic_mut!(1, c, &spec, v => body!(v)),
             AnyC::T2(c) => tview_mut!(2, c, &spec, v => body!(v)),
             AnyC::T3(c) => tview_basic_mut!(3, c, &spec, v => body!(v)),
@@ -1330,12 +1400,7 @@ where
         // the overwritten side is `target`, the other one is only read (through a copy, so that
         // one container can be both)
         let (target, other) = if left { (&a, &b) } else { (&b, &a) };
-        let other_copy: AnyC<T> = match &self.slots[&other.0].c {
-            AnyC::T1(c) => AnyC::T1(c.clone()),
-            AnyC::T2(c) => AnyC::T2(c.clone()),
-            AnyC::T3(c) => AnyC::T3(c.clone()),
-            AnyC::M(c) => AnyC::M(c.clone()),
-        };
+        let other_copy: AnyC<T> = self.slots[&other.0].c.copy();
         let (tspec, ospec) = (&target.1, &other.1);
         macro_rules! body {
             ($t:ident, $o:ident) => {
@@ -1373,7 +1438,7 @@ where
             };
         }
         let (bt, bo) = (tspec.is_basic(), ospec.is_basic());
-        if !bt && !bo {
+        if (!bt && !bo) || tspec.is_shared_only() {
             return "bad-view".into();
         }
         let slot = self.slots.get_mut(&target.0).unwrap();
@@ -1432,6 +1497,7 @@ where
             };
         }
         let out = match &slot.c {
+            AnyC::T0(_) => return "bad-kind".into(),
             AnyC::T1(c) => tview_basic!(1, c, &spec, v => tbody!(v, T1)),
             AnyC::T2(c) => tview!(2, c, &spec, v => tbody!(v, T2)),
             AnyC::T3(c) => tview_basic!(3, c, &spec, v => tbody!(v, T3)),
@@ -1450,7 +1516,15 @@ where
             .and_then(|recs| catch(|| recs.into_iter().enumerate().map(|(k, x)| sf(k, x)).collect::<Vec<Rc<T>>>()).ok());
         match out {
             Err(kind) => panic_str(kind),
-            Ok(Err(e)) => self.show_inconsistent(e.first, e.later),
+            Ok(Err(e)) => {
+                // the error's `Display` names both histories
+                let text = format!("{}", e);
+                if text.starts_with("First history was") {
+                    self.show_inconsistent(e.first, e.later)
+                } else {
+                    format!("err(display: {})", text)
+                }
+            }
             Ok(Ok(c)) => {
                 self.put(res, c, shadow);
                 self.answer(res)
@@ -1464,6 +1538,9 @@ where
             Ok(x) => x,
             Err(e) => return e,
         };
+        if spec.is_shared_only() {
+            return "bad-view".into();
+        }
         let fname = opt_arg("fn", toks).unwrap();
         let f = rec_fn::<T>(fname, self.lists(false));
         let sf = rec_fn::<T>(fname, self.lists(true));
@@ -1488,6 +1565,7 @@ where
         }
         let slot = self.slots.get_mut(&an).unwrap();
         let r: Result<(), PanicKind> = match &mut slot.c {
+            AnyC::T0(_) => return "bad-kind".into(),
             AnyC::T1(c) => tview_basic_mut!(1, c, &spec, v => tbody!(v)),
             AnyC::T2(c) => tview_mut!(2, c, &spec, v => tbody!(v)),
             AnyC::T3(c) => tview_basic_mut!(3, c, &spec, v => tbody!(v)),
@@ -1520,6 +1598,7 @@ where
     fn records_of(&self, name: &str, spec: &ViewSpec, order: &str) -> Vec<Rc<T>> {
         let slot = &self.slots[name];
         let mut recs: Vec<Rc<T>> = match &slot.c {
+            AnyC::T0(c) => tview_basic!(0, c, spec, v => v.iter_as_records().collect()),
             AnyC::T1(c) => tview_basic!(1, c, spec, v => v.iter_as_records().collect()),
             AnyC::T2(c) => tview!(2, c, spec, v => v.iter_as_records().collect()),
             AnyC::T3(c) => tview_basic!(3, c, spec, v => v.iter_as_records().collect()),
@@ -1533,6 +1612,49 @@ where
             recs.reverse();
         }
         recs
+    }
+
+    /// the records an operand yields together with their indexes (`with_index()` or the `From`
+    /// conversion), as (row-major position of the index, record)
+    fn indexed_records_of(&self, name: &str, spec: &ViewSpec, vs: &Sh, via: &str) -> Vec<(usize, Rc<T>)> {
+        use easy_ml::differentiation::iterators::AsRecords;
+        use easy_ml::matrices::iterators::{RowMajorIterator, WithIndex};
+        use easy_ml::tensors::indexing::TensorIterator;
+        let slot = &self.slots[name];
+        let st = strides(vs);
+        let flat = |i: &[usize]| i.iter().zip(st.iter()).map(|(x, y)| x * y).sum::<usize>();
+        let cols = vs.last().map(|x| x.1).unwrap_or(1);
+        macro_rules! tbody {
+            ($v:ident) => {{
+                if via == "from_with_index" {
+                    // the constructor is public, its result has no public way of being iterated
+                    let _ = AsRecords::from_with_index($v.history(), TensorIterator::from(&$v).with_index());
+                }
+                if via == "into" {
+                    let w: WithIndex<_> = $v.iter_as_records().into();
+                    w.map(|(i, r)| (flat(&i), r)).collect()
+                } else {
+                    $v.iter_as_records().with_index().map(|(i, r)| (flat(&i), r)).collect()
+                }
+            }};
+        }
+        match &slot.c {
+            AnyC::T0(c) => tview_basic!(0, c, spec, v => tbody!(v)),
+            AnyC::T1(c) => tview_basic!(1, c, spec, v => tbody!(v)),
+            AnyC::T2(c) => tview!(2, c, spec, v => tbody!(v)),
+            AnyC::T3(c) => tview_basic!(3, c, spec, v => tbody!(v)),
+            AnyC::M(c) => mview!(c, spec, v => {
+                if via == "from_with_index" {
+                    let _ = AsRecords::from_with_index(v.history(), RowMajorIterator::from(&v).with_index());
+                }
+                if via == "into" {
+                    let w: WithIndex<_> = v.iter_row_major_as_records().into();
+                    w.map(|((r, c), x)| (r * cols + c, x)).collect()
+                } else {
+                    v.iter_row_major_as_records().with_index().map(|((r, c), x)| (r * cols + c, x)).collect()
+                }
+            }),
+        }
     }
 
     fn column_major<X: Clone>(shape: &Sh, l: &[X]) -> Vec<X> {
@@ -1555,6 +1677,7 @@ where
             ($r:expr, $variant:ident) => {
                 match $r {
                     Ok(c) => Ok(AnyC::$variant(c)),
+                    Err(e) if !iter_error_display_ok(&e) => Err("err(display)".to_string()),
                     Err(E::Shape { .. }) => Err("err(shape)".to_string()),
                     Err(E::Empty) => Err("err(empty)".to_string()),
                     Err(E::InconsistentHistory(h)) => Err(format!("INC {:?} {:?}", h.first.map(|x| x as *const _ as usize), h.later.map(|x| x as *const _ as usize))),
@@ -1566,6 +1689,7 @@ where
                 conv!(RecordMatrix::from_iter((shape[0].1, shape[1].1), recs), M)
             } else {
                 match shape.len() {
+                    0 => conv!(RecordTensor::from_iter(shape_array::<0>(shape), recs), T0),
                     1 => conv!(RecordTensor::from_iter(shape_array::<1>(shape), recs), T1),
                     2 => conv!(RecordTensor::from_iter(shape_array::<2>(shape), recs), T2),
                     3 => conv!(RecordTensor::from_iter(shape_array::<3>(shape), recs), T3),
@@ -1616,12 +1740,18 @@ where
         let f = rec_fn::<T>(fname, self.lists(false));
         let sf = rec_fn::<T>(fname, self.lists(true));
         // main: the records of the operand(s) as the library's iterators yield them
-        let mut recs = self.records_of(&an, &spec, order);
+        let via = opt_arg("via", toks).unwrap_or("plain");
+        let indexed = via == "with_index" || via == "into" || via == "from_with_index";
+        let mut recs: Vec<(usize, Rc<T>)> = if indexed {
+            self.indexed_records_of(&an, &spec, &vs, via)
+        } else {
+            self.records_of(&an, &spec, order).into_iter().map(|r| (0, r)).collect()
+        };
         if let Some(c) = &chain {
-            recs.extend(self.records_of(&c.0, &c.1, "rm"));
+            recs.extend(self.records_of(&c.0, &c.1, "rm").into_iter().map(|r| (0, r)));
         }
         let n = take.unwrap_or(recs.len());
-        let iter: Box<dyn Iterator<Item = Rc<T>>> = Box::new(recs.into_iter().take(n).map(move |x| f(0, x)));
+        let iter: Box<dyn Iterator<Item = Rc<T>>> = Box::new(recs.into_iter().take(n).map(move |(k, x)| f(k, x)));
         let out = Self::build_from_iter(to_matrix, &shape, iter);
         // mirror
         let shadow = self.shadow_view(&an, &offs).and_then(|a| {
@@ -1633,7 +1763,7 @@ where
             if let Some(c) = &chain {
                 a.extend(self.shadow_view(&c.0, &c.3)?);
             }
-            catch(|| a.into_iter().take(n).map(|x| sf(0, x)).collect::<Vec<Rc<T>>>()).ok()
+            catch(|| a.into_iter().take(n).enumerate().map(|(k, x)| sf(if indexed { k } else { 0 }, x)).collect::<Vec<Rc<T>>>()).ok()
         });
         match out {
             Err(kind) => panic_str(kind),
@@ -1670,6 +1800,7 @@ where
             ($r:expr, $variant:ident) => {
                 $r.map(|one| match one {
                     Ok(c) => Ok(AnyC::$variant(c)),
+                    Err(e) if !iter_error_display_ok(&e) => Err("err(display)".to_string()),
                     Err(E::Shape { .. }) => Err("err(shape)".to_string()),
                     Err(E::Empty) => Err("err(empty)".to_string()),
                     Err(E::InconsistentHistory(h)) => Err(format!("INC {:?} {:?}", h.first.map(|x| x as *const _ as usize), h.later.map(|x| x as *const _ as usize))),
@@ -1682,6 +1813,7 @@ where
                 conv!(RecordMatrix::from_iters::<_, 2>((shape_ref[0].1, shape_ref[1].1), iter), M)
             } else {
                 match shape_ref.len() {
+                    0 => conv!(RecordTensor::from_iters::<_, 2>(shape_array::<0>(shape_ref), iter), T0),
                     1 => conv!(RecordTensor::from_iters::<_, 2>(shape_array::<1>(shape_ref), iter), T1),
                     2 => conv!(RecordTensor::from_iters::<_, 2>(shape_array::<2>(shape_ref), iter), T2),
                     3 => conv!(RecordTensor::from_iters::<_, 2>(shape_array::<3>(shape_ref), iter), T3),
@@ -1739,6 +1871,9 @@ where
             Ok(x) => x,
             Err(e) => return e,
         };
+        if spec.is_shared_only() {
+            return "bad-view".into();
+        }
         let slot = self.slots.get_mut(&an).unwrap();
         macro_rules! body {
             ($v:ident, $Ty:ident) => {
@@ -1754,6 +1889,7 @@ where
             };
         }
         let r: Result<(), PanicKind> = match &mut slot.c {
+            AnyC::T0(c) => tview_basic_mut!(0, c, &spec, v => body!(v, RecordTensor)),
             AnyC::T1(c) => tview_basic_mut!(1, c, &spec, v => body!(v, RecordTensor)),
             AnyC::T2(c) => tview_mut!(2, c, &spec, v => body!(v, RecordTensor)),
             AnyC::T3(c) => tview_basic_mut!(3, c, &spec, v => body!(v, RecordTensor)),
@@ -1802,6 +1938,7 @@ where
             };
         }
         match &slot.c {
+            AnyC::T0(c) => tview_basic!(0, c, spec, v => tbody!(v)),
             AnyC::T1(c) => tview_basic!(1, c, spec, v => tbody!(v)),
             AnyC::T2(c) => tview!(2, c, spec, v => tbody!(v)),
             AnyC::T3(c) => tview_basic!(3, c, spec, v => tbody!(v)),
@@ -1850,6 +1987,7 @@ where
             };
         }
         let ds: Result<Option<Vec<Derivatives<T>>>, PanicKind> = match &slot.c {
+            AnyC::T0(c) => tview_basic!(0, c, &ospec, v => tbody!(v)),
             AnyC::T1(c) => tview_basic!(1, c, &ospec, v => tbody!(v)),
             AnyC::T2(c) => tview!(2, c, &ospec, v => tbody!(v)),
             AnyC::T3(c) => tview_basic!(3, c, &ospec, v => tbody!(v)),
@@ -1917,6 +2055,191 @@ where
         format!("d={} scalar={}", show(&table), verdict)
     }
 
+    /// `elem z a[/acc.<perm>] <indexes> via=<index_by|owned|mut|matrix>.<get|try>.<val|ref>`
+    fn elem_line(&mut self, toks: &[&str]) -> String {
+        let res = toks[1];
+        let (n, spec) = match parse_operand(toks[2]) {
+            Some(x) => x,
+            None => return "bad-ref".into(),
+        };
+        let n = n.to_string();
+        let (shape, is_matrix) = match self.slots.get(&n) {
+            Some(slot) => (slot.c.shape(), slot.c.is_matrix()),
+            None => return "bad-ref".into(),
+        };
+        if !matches!(spec, ViewSpec::Own | ViewSpec::Acc(_)) {
+            return "bad-view".into();
+        }
+        let (vs, offs) = match view_of(&shape, &spec, is_matrix) {
+            Some(x) => x,
+            None => return "bad-ref".into(),
+        };
+        let idx = parse_usizes(toks[3]);
+        let via: Vec<&str> = opt_arg("via", toks).unwrap_or("index_by.get.val").split('.').collect();
+        let (access, form, conv) = (via[0], via.get(1).copied().unwrap_or("get"), via.get(2).copied().unwrap_or("val"));
+        // the position the index designates in the access order (None: out of range)
+        let pos: Option<usize> = if idx.len() == vs.len() && idx.iter().zip(vs.iter()).all(|(i, d)| *i < d.1) {
+            Some(idx.iter().zip(strides(&vs).iter()).map(|(i, s)| i * s).sum())
+        } else {
+            None
+        };
+        let slot = self.slots.get_mut(&n).unwrap();
+        let got: Result<Option<Rc<T>>, PanicKind> = if idx.len() != vs.len() {
+            if form == "try" { Ok(None) } else { Err(PanicKind::Explicit) }
+        } else {
+            match &mut slot.c {
+                AnyC::T0(c) => elem_t::<T, 0>(c, &spec, &idx, access, form),
+                AnyC::T1(c) => elem_t::<T, 1>(c, &spec, &idx, access, form),
+                AnyC::T2(c) => elem_t::<T, 2>(c, &spec, &idx, access, form),
+                AnyC::T3(c) => elem_t::<T, 3>(c, &spec, &idx, access, form),
+                AnyC::M(c) => {
+                    let c = &*c;
+                    catch(|| if form == "try" { c.try_get_as_record(idx[0], idx[1]) } else { Some(c.get_as_record(idx[0], idx[1])) })
+                }
+            }
+        };
+        let rec = match got {
+            Err(kind) => return panic_str(kind),
+            Ok(None) => return "none".into(),
+            Ok(Some(r)) => r,
+        };
+        let (number, index, is_const) = (rec.number.clone(), rec.index, rec.history().is_none());
+        let srec: Option<Rc<T>> = match (pos, self.shadow_view(&n, &offs)) {
+            (Some(k), Some(recs)) => recs.get(k).cloned(),
+            _ => None,
+        };
+        let scalar = match &srec {
+            None => "skip".to_string(),
+            Some(sr) => {
+                if sr.number == number && sr.history().is_none() == is_const {
+                    "ok".to_string()
+                } else {
+                    format!("DIFF(v={},const={})", sr.number, if sr.history().is_none() { 1 } else { 0 })
+                }
+            }
+        };
+        let z: RT<T, 0> = if conv == "ref" { RecordTensor::from(&rec) } else { RecordTensor::from(rec) };
+        self.put(res, AnyC::T0(z), srec.map(|r| vec![r]));
+        format!("v={} const={} scalar={} ## idx={}", number, if is_const { 1 } else { 0 }, scalar, index)
+    }
+
+    /// `scalar y z via=<val|ref>.<val|ref>`: 0-dimensional tensor -> `Record` -> 0-dimensional tensor
+    fn scalar_line(&mut self, toks: &[&str]) -> String {
+        let res = toks[1];
+        let (n, _spec, _vs, offs) = match self.operand(toks[2]) {
+            Ok(x) => x,
+            Err(e) => return e,
+        };
+        let via: Vec<&str> = opt_arg("via", toks).unwrap_or("val.val").split('.').collect();
+        let z = match &self.slots[&n].c {
+            AnyC::T0(c) => {
+                let rec: Rc<T> = if via[0] == "ref" { Record::from(c) } else { Record::from(c.clone()) };
+                let z: RT<T, 0> = if via.get(1) == Some(&"ref") { RecordTensor::from(&rec) } else { RecordTensor::from(rec) };
+                z
+            }
+            _ => return "panic(unwrap)".into(),
+        };
+        let shadow = self.shadow_view(&n, &offs);
+        self.put(res, AnyC::T0(z), shadow);
+        self.answer(res)
+    }
+
+    /// `swap a <indexes> <indexes>`: two elements exchanged through the container's `TensorMut` /
+    /// `MatrixMut` implementation
+    fn swap_line(&mut self, toks: &[&str]) -> String {
+        let (n, spec, vs, offs) = match self.operand(toks[1]) {
+            Ok(x) => x,
+            Err(e) => return e,
+        };
+        if !matches!(spec, ViewSpec::Own) {
+            return "bad-view".into();
+        }
+        let (i, j) = (parse_usizes(toks[2]), parse_usizes(toks[3]));
+        let slot = self.slots.get_mut(&n).unwrap();
+        macro_rules! tswap {
+            ($c:ident, $D:literal) => {{
+                if i.len() != $D || j.len() != $D {
+                    false
+                } else {
+                    let (ai, aj): ([usize; $D], [usize; $D]) = (to_array(&i), to_array(&j));
+                    let a = TensorMut::get_reference_mut($c, ai).map(|x| x.clone());
+                    let b = TensorMut::get_reference_mut($c, aj).map(|x| x.clone());
+                    match (a, b) {
+                        (Some(a), Some(b)) => {
+                            *TensorMut::get_reference_mut($c, ai).unwrap() = b;
+                            *TensorMut::get_reference_mut($c, aj).unwrap() = a;
+                            true
+                        }
+                        _ => false,
+                    }
+                }
+            }};
+        }
+        let done = match &mut slot.c {
+            AnyC::T0(c) => tswap!(c, 0),
+            AnyC::T1(c) => tswap!(c, 1),
+            AnyC::T2(c) => tswap!(c, 2),
+            AnyC::T3(c) => tswap!(c, 3),
+            AnyC::M(c) => {
+                if i.len() != 2 || j.len() != 2 {
+                    false
+                } else {
+                    let a = MatrixMut::try_get_reference_mut(c, i[0], i[1]).map(|x| x.clone());
+                    let b = MatrixMut::try_get_reference_mut(c, j[0], j[1]).map(|x| x.clone());
+                    match (a, b) {
+                        (Some(a), Some(b)) => {
+                            *MatrixMut::try_get_reference_mut(c, i[0], i[1]).unwrap() = b;
+                            *MatrixMut::try_get_reference_mut(c, j[0], j[1]).unwrap() = a;
+                            true
+                        }
+                        _ => false,
+                    }
+                }
+            }
+        };
+        if !done {
+            return "none".into();
+        }
+        let st = strides(&vs);
+        let flat = |x: &[usize]| x.iter().zip(st.iter()).map(|(a, b)| a * b).sum::<usize>();
+        let (pi, pj) = (offs[flat(&i)], offs[flat(&j)]);
+        if let Some(recs) = self.slots.get_mut(&n).unwrap().shadow.as_mut() {
+            recs.swap(pi, pj);
+        }
+        self.answer(&n)
+    }
+
+    /// `layout a`: `data_layout` of the container used as a tensor / matrix source
+    fn layout_line(&mut self, toks: &[&str]) -> String {
+        use easy_ml::matrices::views::DataLayout as MLayout;
+        use easy_ml::tensors::views::DataLayout as TLayout;
+        let (n, _spec, _vs, _offs) = match self.operand(toks[1]) {
+            Ok(x) => x,
+            Err(e) => return e,
+        };
+        macro_rules! tlayout {
+            ($c:ident, $D:literal) => {
+                match <RT<T, $D> as TensorRef<(T, Index), $D>>::data_layout($c) {
+                    TLayout::Linear(names) => format!("linear:{}", names.join(",")),
+                    TLayout::NonLinear => "non_linear".to_string(),
+                    TLayout::Other => "other".to_string(),
+                }
+            };
+        }
+        let l = match &self.slots[&n].c {
+            AnyC::T0(c) => tlayout!(c, 0),
+            AnyC::T1(c) => tlayout!(c, 1),
+            AnyC::T2(c) => tlayout!(c, 2),
+            AnyC::T3(c) => tlayout!(c, 3),
+            AnyC::M(c) => match <RM<T> as MatrixRef<(T, Index)>>::data_layout(c) {
+                MLayout::RowMajor => "row_major".to_string(),
+                MLayout::ColumnMajor => "column_major".to_string(),
+                MLayout::Other => "other".to_string(),
+            },
+        };
+        format!("ok ## layout={}", l)
+    }
+
     pub fn step(&mut self, toks: &[&str]) -> String {
         match toks[0] {
             "vars" | "consts" if toks.len() >= 5 => self.create(toks),
@@ -1929,10 +2252,69 @@ where
             "mapmut" if toks.len() >= 2 => self.mapmut_line(toks),
             "fromiter" if toks.len() >= 3 => self.fromiter_line(toks),
             "fromiters" if toks.len() >= 3 => self.fromiters_line(toks),
+            "elem" if toks.len() >= 4 => self.elem_line(toks),
+            "scalar" if toks.len() >= 3 => self.scalar_line(toks),
+            "swap" if toks.len() >= 4 => self.swap_line(toks),
+            "layout" if toks.len() >= 2 => self.layout_line(toks),
             "add" | "sub" | "emul" | "ediv" | "binary" | "matmul" if toks.len() >= 4 => self.binary_line(toks),
             "addn" | "subn" | "muln" | "divn" | "subsw" | "divsw" | "pown" | "npow" if toks.len() >= 4 => self.unary_line(toks),
             "neg" | "sin" | "cos" | "exp" | "ln" | "sqrt" | "unary" if toks.len() >= 3 => self.unary_line(toks),
             _ => "bad-op".into(),
+        }
+    }
+}
+
+/// the `Display` of the iterator errors says which of the three cases it is
+fn iter_error_display_ok<T: Elt, const D: usize>(e: &easy_ml::differentiation::iterators::InvalidRecordIteratorError<'static, T, D>) -> bool {
+    use easy_ml::differentiation::iterators::InvalidRecordIteratorError as E;
+    let text = format!("{}", e);
+    match e {
+        E::Shape { .. } => text.starts_with("Shape "),
+        E::Empty => text.starts_with("Iterator was empty"),
+        E::InconsistentHistory(_) => text.starts_with("First history in iterator"),
+    }
+}
+
+/// a container is displayed by its numbers: they appear in the text in row-major order
+fn display_shows<T: Elt>(text: &str, vals: &[T]) -> bool {
+    let mut rest = text;
+    for v in vals {
+        let needle = v.to_string();
+        match rest.find(&needle) {
+            Some(k) => rest = &rest[k + needle.len()..],
+            None => return false,
+        }
+    }
+    true
+}
+
+/// one element as a record through one of the three `TensorAccess` flavours over a record tensor
+fn elem_t<T, const D: usize>(c: &mut RT<T, D>, spec: &ViewSpec, idx: &[usize], access: &str, form: &str) -> Result<Option<Rc<T>>, PanicKind>
+where
+    T: Elt,
+    for<'x> &'x T: NumericRef<T>,
+{
+    let shape = c.shape();
+    let dims: [Dimension; D] = match spec {
+        ViewSpec::Acc(p) => std::array::from_fn(|k| shape[p[k]].0),
+        _ => std::array::from_fn(|k| shape[k].0),
+    };
+    let i: [usize; D] = to_array(idx);
+    macro_rules! get {
+        ($a:expr) => {{
+            let a = $a;
+            catch(|| if form == "try" { a.try_get_as_record(i) } else { Some(a.get_as_record(i)) })
+        }};
+    }
+    match access {
+        "owned" => get!(TensorAccess::from(c.clone(), dims)),
+        "mut" => get!(TensorAccess::from(&mut *c, dims)),
+        _ => {
+            if matches!(spec, ViewSpec::Own) {
+                get!(c.index())
+            } else {
+                get!(c.index_by(dims))
+            }
         }
     }
 }
